@@ -55,7 +55,7 @@ func c01Gen(seed int64, idx int) c01Shape {
 	}
 	// every 6th shape is built to be a split brain (two replicas with different errant transactions)
 	if (idx/len(c01Reqs))%6 == 5 && sh.N >= 3 {
-		sh.Hist[0], sh.Hist[1] = "errant", "errant"
+		sh.Hist[0], sh.Hist[1] = "errant_late", "errant_late"
 	}
 	for i := 0; i < sh.N; i++ {
 		sh.Prio = append(sh.Prio, []int{0, 0, 5, 10}[r.Intn(4)])
@@ -122,6 +122,7 @@ type c01Monitor struct {
 
 type c01Attempt struct {
 	roOK, ioOK   map[string]bool
+	uncertain    map[string]bool
 	frozenJudged bool
 	split        bool
 	splitWhat    string
@@ -146,7 +147,9 @@ func newC01Monitor(sc *Scen, semi bool, w int) *c01Monitor {
 		if method == "AcquireLock" {
 			m.mu.Lock()
 			a := m.att[inst]
-			need := a != nil && !a.frozenJudged && len(a.roOK) > 0
+			// the obligation starts when the instance passes the lock re-check that follows the freeze
+			// (a deposed manager leaves here, which the statement allows)
+			need := a != nil && !a.frozenJudged && len(a.roOK) > 0 && res == "true"
 			if need {
 				a.frozenJudged = true
 			}
@@ -179,7 +182,7 @@ func newC01Monitor(sc *Scen, semi bool, w int) *c01Monitor {
 				// StartSwitchover: a new attempt begins
 				m.lastStart[inst] = sw.StartedAt
 				m.endAttempt(inst)
-				m.att[inst] = &c01Attempt{roOK: map[string]bool{}, ioOK: map[string]bool{}, oldMaster: s.CachedMaster()}
+				m.att[inst] = &c01Attempt{roOK: map[string]bool{}, ioOK: map[string]bool{}, uncertain: map[string]bool{}, oldMaster: s.CachedMaster()}
 			}
 		}
 	})
@@ -204,7 +207,12 @@ func (m *c01Monitor) afterStmt(w *world.World, c *world.StmtCtx) {
 	m.mu.Lock()
 	defer m.mu.Unlock()
 	a := m.att[inst]
-	if a == nil || c.Errno != 0 {
+	if a == nil || c.Errno != 0 || c.ReplyDropped {
+		return
+	}
+	if c.Delayed > 0 && (c.Class == "set_ro" || c.Class == "set_ro_nosuper" || c.Class == "stop_io") {
+		// took effect, but the instance may have given up waiting for the reply: its view is unknown
+		a.uncertain[c.Host] = true
 		return
 	}
 	switch c.Class {
@@ -231,16 +239,41 @@ func (m *c01Monitor) judgeFrozen(inst string, a *c01Attempt, snap world.Snapshot
 	if len(frozen) == 0 {
 		return
 	}
-	maxExists := false
-	for _, h := range frozen {
-		all := true
-		for _, o := range frozen {
-			if !snap[o].Positions().SubsetOf(snap[h].Positions()) {
-				all = false
+	hasMax := func(set []string) bool {
+		for _, h := range set {
+			all := true
+			for _, o := range set {
+				if !snap[o].Positions().SubsetOf(snap[h].Positions()) {
+					all = false
+				}
+			}
+			if all {
+				return true
 			}
 		}
-		if all {
-			maxExists = true
+		return len(set) == 0
+	}
+	// members whose freeze reply was delayed may or may not count as frozen in the instance's view:
+	// the obligation is triggered only if no maximum exists under either reading
+	var certain []string
+	for _, h := range frozen {
+		if !a.uncertain[h] {
+			certain = append(certain, h)
+		}
+	}
+	withU := append([]string(nil), certain...)
+	for h := range a.uncertain {
+		if snap[h] != nil {
+			withU = append(withU, h)
+		}
+	}
+	maxExists := hasMax(certain) || hasMax(withU)
+	if len(a.uncertain) > 0 {
+		// any subset in between: be conservative
+		for h := range a.uncertain {
+			if snap[h] != nil && hasMax(append(append([]string(nil), certain...), h)) {
+				maxExists = true
+			}
 		}
 	}
 	if !maxExists {
@@ -374,6 +407,13 @@ func c01Scenario(u *Unit, name string, sh c01Shape, fault *c01Fault) (*Tracker, 
 		time.Sleep(17 * time.Second)
 		master := hosts[0]
 		tr.Reset()
+		// divergence that appears after the list was last recomputed: the members are still listed when the request arrives
+		for i, h := range hosts[1:] {
+			if sh.Hist[i] == "errant_late" {
+				n := int64(1 + i)
+				s.W.Manual(h, "errant transactions", func(x *world.Server) { x.Executed.AddRange(x.UUID, 1, n) })
+			}
+		}
 		switch sh.Req {
 		case "to":
 			fileSwitch(sc, "", hosts[sh.ToIdx], "manual", "switchover", "operator")
